@@ -322,7 +322,10 @@ def check(run):
             total[k] += counts[k]
         for rule, line, func, construct, msg in findings:
             run.fail(rule, f"{m.name}:{construct}", f"{m.path}:{line}", func or m.name, construct, msg)
-    run.need(total["E1"] >= 15, f"only {total['E1']} calls into random/numpy.random found (confirmed minimum 15)")
+    wanted0 = getattr(run, "_wanted", None)
+    if wanted0 is None or wanted0("E1", "package"):     # (not when included for other rules only)
+        run.need(total["E1"] >= 15 or any(f.rule.endswith("E1") or f.rule.startswith("DEP-C18") for f in run.findings),
+                 f"only {total['E1']} calls into random/numpy.random found (confirmed minimum 15)")
     run.analysed["call_sites"] += total["E1"]
     if not any(f.rule == "E1" for f in run.findings):
         run.ok("E1", "package", f"{total['E1']} calls into random / numpy.random, all module-level functions of the global generators")
@@ -342,6 +345,7 @@ def check(run):
     from .c06 import depends_on
     if wanted is None or wanted("DEP-C15", "") or wanted("NOMUT", ""):
         depends_on(run, "C15", {"NOMUT"})
+        depends_on(run, "C06", {"VALUE"}, only=lambda rule, inst: inst.endswith(".strategy"))   # no decision by object identity of equal values (interning differs between runs)
 
 
 def _seeds(run, prog):
